@@ -176,8 +176,11 @@ pub fn drive(
                 // which of {message handed to the stream, acknowledgement written} comes first is the
                 // implementation's choice: no inbound packet that must be acknowledged, and no fault,
                 // while it is open which write the block will hit
+                // (a successful PUBREC may be answered by the context at once, or by the future later)
                 let needs_ack = |p: &SPacket| {
-                    matches!(p, SPacket::Publish { qos, .. } if *qos > 0) || matches!(p, SPacket::Ack { ty: 6, .. })
+                    matches!(p, SPacket::Publish { qos, .. } if *qos > 0)
+                        || matches!(p, SPacket::Ack { ty: 6, .. })
+                        || matches!(p, SPacket::Ack { ty: 5, reason, .. } if *reason < 0x80)
                 };
                 es.retain(|e| match e {
                     Ev::Deliver(p) | Ev::DeliverBytewise(p) | Ev::DeliverSplit(p, _) => !needs_ack(p),
